@@ -159,11 +159,11 @@ func c18Play(c *fw.Ctx, layer string, hist []c18Op, dir string) (state string, o
 		c.Report(sig, desc, cas)
 		return "", false
 	}
-	checkAll := func(after string) bool {
+	checkAll := func(after string, ost util.Storage, odb db.Database) bool {
 		if layer == "storage" {
 			handed := map[string][]byte{} // what Get handed out: it belongs to the caller and stays what it was
 			for _, k := range c18Keys {
-				got, err := st.Get(k)
+				got, err := ost.Get(k)
 				if err == nil {
 					handed[k] = got
 				}
@@ -193,7 +193,7 @@ func c18Play(c *fw.Ctx, layer string, hist []c18Op, dir string) (state string, o
 				}
 			}
 			for _, suf := range []string{".entity", "", "1"} {
-				got, err := st.KeysWithSuffix(suf)
+				got, err := ost.KeysWithSuffix(suf)
 				var want []string
 				for k := range model {
 					if strings.HasSuffix(k, suf) {
@@ -210,7 +210,7 @@ func c18Play(c *fw.Ctx, layer string, hist []c18Op, dir string) (state string, o
 			return true
 		}
 		for i, n := range c18Names {
-			got, err := database.EntityWithName(n)
+			got, err := odb.EntityWithName(n)
 			want, present := ents[n]
 			switch {
 			case present && err != nil:
@@ -224,7 +224,7 @@ func c18Play(c *fw.Ctx, layer string, hist []c18Op, dir string) (state string, o
 				return false
 			}
 		}
-		es, err := database.Entities()
+		es, err := odb.Entities()
 		var got, want []string
 		for _, e := range es {
 			got = append(got, e.Name+"="+string(e.PublicKey)+"/"+string(e.PrivateKey))
@@ -240,7 +240,7 @@ func c18Play(c *fw.Ctx, layer string, hist []c18Op, dir string) (state string, o
 		}
 		return true
 	}
-	for _, op := range hist {
+	for oi, op := range hist {
 		c.Transition(1)
 		failed := false
 		var perr interface{}
@@ -303,7 +303,17 @@ func c18Play(c *fw.Ctx, layer string, hist []c18Op, dir string) (state string, o
 		if failed {
 			return "", false
 		}
-		if !checkAll(label) {
+		// Looking must not change what is looked at: after every operation but the last the state is read through
+		// FRESH objects on the same directory (an object that reads the directory lazily would otherwise be primed by
+		// the oracle); after the last operation of the history it is read through the objects under test themselves.
+		// Every prefix of a history is itself an explored history, so every intermediate state is seen both ways.
+		ost, odb := st, database
+		if oi < len(hist)-1 {
+			if fs, ferr := util.NewFileStorage(dir); ferr == nil {
+				ost, odb = fs, db.NewDatabaseWithStorage(fs)
+			}
+		}
+		if !checkAll(label, ost, odb) {
 			return "", false
 		}
 	}
